@@ -586,10 +586,193 @@ def gen_rs_portable():
 
 
 # ------------------------------------------------------------------------------------------------
+# G3: arithmetic helpers, translated into checked arithmetic in the monad `R`
+
+RUST_CONSTS = {}
+
+
+def rust_consts():
+    if not RUST_CONSTS:
+        for n in ["OUT_LEN", "KEY_LEN", "BLOCK_LEN", "CHUNK_LEN", "MAX_DEPTH"]:
+            RUST_CONSTS[n] = rust_const_int("G3-arith", "src/lib.rs", n)
+    return RUST_CONSTS
+
+
+class Anf:
+    """emit an integer expression as a sequence of monadic lets over checked operations"""
+
+    def __init__(self, consts, wrapping=False):
+        self.lines = []
+        self.n = 0
+        self.consts = consts
+        self.w = "w" if wrapping else "c"   # C unsigned arithmetic wraps; Rust (overflow checks on) panics
+
+    def fresh(self):
+        self.n += 1
+        return f"t{self.n}"
+
+    def bind(self, rhs):
+        v = self.fresh()
+        self.lines.append(f"let {v} ← {rhs}")
+        return v
+
+    def pure(self, rhs):
+        v = self.fresh()
+        self.lines.append(f"let {v} := {rhs}")
+        return v
+
+    def go(self, e):
+        k = e[0]
+        c = const_eval(e)
+        if c is not None:
+            return str(c)
+        if k == "var":
+            if e[1] in self.consts:
+                return str(self.consts[e[1]])
+            return e[1]
+        if k == "paren":
+            return self.go(e[1])
+        if k == "cast":
+            if e[2] in ("u64", "usize", "uint64_t", "size_t"):
+                return self.go(e[1])     # widening / same-width casts only (checked by the caller's whitelist)
+            raise ValueError(f"cast to {e[2]} not supported in arithmetic helpers")
+        if k == "bin":
+            a, b = self.go(e[2]), self.go(e[3])
+            op = e[1]
+            if op == "+":
+                return self.bind(f"Arith.{self.w}add {a} {b}")
+            if op == "-":
+                return self.bind(f"Arith.{self.w}sub {a} {b}")
+            if op == "*":
+                return self.bind(f"Arith.{self.w}mul {a} {b}")
+            if op == "/":
+                return self.bind(f"Arith.cdiv {a} {b}")
+            if op == "%":
+                return self.bind(f"Arith.cmod {a} {b}")
+            if op == "<<":
+                return self.bind(f"Arith.cshl {a} {b}")
+            if op == "|":
+                return self.pure(f"{a} ||| {b}")
+            if op == "&":
+                return self.pure(f"{a} &&& {b}")
+            raise ValueError(f"operator {op}")
+        if k == "method":
+            r = self.go(e[1])
+            if e[2] == "next_power_of_two" and not e[3]:
+                return self.bind(f"Arith.npow2 {r}")
+            if e[2] == "trailing_zeros" and not e[3]:
+                return self.pure(f"Arith.tz {r}")
+            if e[2] == "count_ones" and not e[3]:
+                return self.pure(f"Arith.popcnt {r}")
+            raise ValueError(f"method {e[2]}")
+        if k == "call":
+            if e[1] == "highest_one":
+                return self.pure(f"Arith.highestOne {self.go(e[2][0])}")
+            if e[1] == "round_down_to_power_of_2":
+                return self.bind(f"round_down_to_power_of_2 {self.go(e[2][0])}")
+            raise ValueError(f"call {e[1]}")
+        raise ValueError(f"cannot translate {e}")
+
+
+def translate_arith_fn(artefact, name, params, body, consts, option_result=False, wrapping=False):
+    """statements: debug_assert!(a > b) | assert_eq!(a, b) | if x == 0 { return None; } | let v = e; | tail"""
+    body = re.sub(r"if\s+(\w+)\s*==\s*0\s*\{\s*return\s+None\s*;\s*\}", r"__ifnone \1;", body)
+    stmts, tail = split_statements(body)
+    anf = Anf(consts, wrapping)
+    out_lines = []
+    try:
+        pending = []
+        for s in stmts:
+            s = s.strip()
+            m = re.match(r"^__ifnone\s+(\w+)$", s)
+            if m:
+                pending.append(("ifnone", m.group(1)))
+                continue
+            if s == "}":
+                continue
+            s2 = s.lstrip("} \n")
+            m = re.match(r"^debug_assert!\((.+?)\s*>\s*(.+)\)$", s2, re.S)
+            if m:
+                a, b = anf.go(parse_expr(m.group(1))), anf.go(parse_expr(m.group(2)))
+                anf.lines.append(f"Arith.assertTrue (decide ({a} > {b}))")
+                continue
+            m = re.match(r"^assert_eq!\((.+),\s*(\d+)\)$", s2, re.S)
+            if m:
+                a = anf.go(parse_expr(m.group(1)))
+                anf.lines.append(f"Arith.assertEq {a} {m.group(2)}")
+                continue
+            m = re.match(r"^let\s+(\w+)\s*=\s*(.+)$", s2, re.S)
+            if m:
+                v = anf.go(parse_expr(m.group(2)))
+                # a source-level `let name = e` becomes an alias of the temporary holding e (emitting a
+                # Lean `let name := t` would only add a beta-redex that the kernel has to see through)
+                anf.consts = dict(anf.consts)
+                anf.consts[m.group(1)] = v
+                anf.lines.append(f"-- {m.group(1)} = {v}")
+                continue
+            raise ValueError(f"statement {s!r}")
+        tail = tail.strip().lstrip("} \n")
+        m = re.match(r"^Some\((.+)\)$", tail, re.S)
+        if m:
+            v = anf.go(parse_expr(m.group(1)))
+            final = f"pure (some {v})"
+        else:
+            v = anf.go(parse_expr(tail))
+            final = f"pure (some {v})" if option_result else f"pure {v}"
+        # `if x == 0 { return None; }` guards come first in the source; emit them as an outer `if`
+        guard = ""
+        for kind, var in pending:
+            guard += f"  if {var} = 0 then pure none else\n"
+    except TranslationBroken:
+        raise
+    except Exception as ex:
+        raise TranslationBroken(artefact, f"{name}: {ex}")
+    ret = "R (Option Nat)" if (option_result or pending) else "R Nat"
+    body_txt = "".join("  " + l + "\n" for l in anf.lines)
+    return f"def {name} {params} : {ret} :=\n{guard}  do\n" + "".join("    " + l + "\n" for l in anf.lines) + f"    {final}\n"
+
+
+def gen_arith():
+    A = "G3-arith"
+    consts = rust_consts()
+    o = ["/- GENERATED by gen/extract.py from /repo/src/lib.rs, src/hazmat.rs, c/blake3.c, c/blake3_impl.h -- do not edit -/",
+         "import B3.Arith", "namespace B3.Gen", "open B3", "", "namespace Rs"]
+    params, body = find_fn(A, "src/lib.rs", r"fn\s+largest_power_of_two_leq\s*\(")
+    if not re.match(r"\s*n\s*:\s*usize\s*$", params):
+        raise TranslationBroken(A, "largest_power_of_two_leq: unexpected parameters")
+    o.append(translate_arith_fn(A, "largest_power_of_two_leq", "(n : Nat)", body, consts))
+    params, body = find_fn(A, "src/hazmat.rs", r"pub\s+fn\s+left_subtree_len\s*\(")
+    if not re.match(r"\s*input_len\s*:\s*u64\s*$", params):
+        raise TranslationBroken(A, "left_subtree_len: unexpected parameters")
+    o.append(translate_arith_fn(A, "left_subtree_len", "(input_len : Nat)", body, consts))
+    params, body = find_fn(A, "src/hazmat.rs", r"pub\s+fn\s+max_subtree_len\s*\(")
+    if not re.match(r"\s*input_offset\s*:\s*u64\s*$", params):
+        raise TranslationBroken(A, "max_subtree_len: unexpected parameters")
+    o.append(translate_arith_fn(A, "max_subtree_len", "(input_offset : Nat)", body, consts, option_result=True))
+    o.append("end Rs\n")
+    # C
+    cconsts = {"BLAKE3_CHUNK_LEN": c_define_int(A, "c/blake3.h", "BLAKE3_CHUNK_LEN")}
+    o.append("namespace C")
+    params, body = find_fn(A, "c/blake3_impl.h", r"round_down_to_power_of_2\s*\(")
+    body = re.sub(r"^\s*return\s+", "", body.strip()).rstrip(";")
+    body = body.replace("1ULL", "1")
+    o.append(translate_arith_fn(A, "round_down_to_power_of_2", "(x : Nat)", body, cconsts, wrapping=True))
+    params, body = find_fn(A, "c/blake3.c", r"INLINE\s+size_t\s+left_subtree_len\s*\(")
+    # C: size_t full_chunks = (input_len - 1) / BLAKE3_CHUNK_LEN; return round_down_to_power_of_2(full_chunks) * BLAKE3_CHUNK_LEN;
+    body = re.sub(r"\bsize_t\s+(\w+)\s*=", r"let \1 =", body)
+    body = re.sub(r"\breturn\s+([^;]+);\s*$", r"\1", body.strip())
+    o.append(translate_arith_fn(A, "left_subtree_len", "(input_len : Nat)", body, cconsts, wrapping=True))
+    o.append("end C\n")
+    o.append("end B3.Gen")
+    return "\n".join(o) + "\n"
+
+
+# ------------------------------------------------------------------------------------------------
 
 ARTEFACTS = [
     ("Consts.lean", "G1-consts", gen_consts),
     ("RsPortable.lean", "G2-rs-portable", gen_rs_portable),
+    ("Arith.lean", "G3-arith", gen_arith),
 ]
 
 
